@@ -317,9 +317,23 @@ pub fn run(cfg: &RunCfg, rep: &mut Report) {
                         }
                     }
                 }
+                // the same rights, written either as one entry or as one entry per leaf (the asset
+                // set is a set of (key source, rights) pairs: a key may be registered several times)
+                let mut cans = vec![can.clone()];
+                if let Some(l) = &leaves {
+                    if l.len() >= 2 && rng.chance(1, 2) {
+                        cans = l
+                            .iter()
+                            .map(|lh| CanSign { ecdsa, taproot: TaprootCanSign { key_spend, script_spend: TaprootAvailableLeaves::Single(*lh), sighash_default } })
+                            .collect();
+                        rep.count("assets: one entry per allowed leaf for the same key");
+                    }
+                }
                 for e in exprs {
                     for path in e.full_derivation_paths() {
-                        lib.keys.insert(((e.master_fingerprint(), path), can.clone()));
+                        for c in &cans {
+                            lib.keys.insert(((e.master_fingerprint(), path.clone()), c.clone()));
+                        }
                     }
                 }
             }
